@@ -58,8 +58,14 @@ Definition fut_ok (t : list event) (p : nat * nat) : Prop :=
   written_through (snd p) t = Some (firstn (fst p) (written_of t)) /\
   fst p <= length (written_of t).
 
+Definition live (t : list event) (l : list nat) : list nat :=
+  filter (fun i => negb (cancelled_in i t)) l.
+
+(* the queue holds exactly the futures not yet dequeued; the pending ones are those not cancelled *)
 Definition QInv (q : list (nat * nat)) (t : list event) : Prop :=
-  map snd q = pending_ids t /\ Forall (fut_ok t) q /\ inc (map snd q) (count_writes t).
+  map snd q = queued_ids t /\ pending_ids t = live t (queued_ids t) /\
+  Forall (fut_ok t) q /\ inc (map snd q) (count_writes t) /\
+  (forall i, cancelled_in i t = true -> i < count_writes t).
 
 Definition Core (cl : bool) (b : sbuf) (i dn : nat) (q : list (nat * nat)) (n : nat)
            (m : option nat) (t : list event) : Prop :=
@@ -75,29 +81,35 @@ Definition Inv (s : stream) : Prop :=
 (* events that do not touch bytes or futures *)
 Definition neutral (e : event) : bool :=
   match e with
-  | EWrite _ _ | ESend _ _ | EResolve _ | EFail _ | ECrash | EFuel => false
+  | EWrite _ _ | ESend _ _ | EResolve _ | EFail _ | ECancel _ | ESkip _ | ECrash | EFuel => false
   | _ => true
   end.
 
 Lemma neutral_facts e t : neutral e = true ->
   sent_of (e :: t) = sent_of t /\ written_of (e :: t) = written_of t /\
   pending_ids (e :: t) = pending_ids t /\ count_writes (e :: t) = count_writes t /\
-  (forall id, written_through id (e :: t) = written_through id t).
+  (forall id, written_through id (e :: t) = written_through id t) /\
+  queued_ids (e :: t) = queued_ids t /\ (forall id, cancelled_in id (e :: t) = cancelled_in id t).
 Proof. destruct e; simpl; intros H; try discriminate; repeat split; auto. Qed.
 
 Lemma QInv_same q t t' :
   sent_of t' = sent_of t -> written_of t' = written_of t -> pending_ids t' = pending_ids t ->
   count_writes t' = count_writes t -> (forall id, written_through id t' = written_through id t) ->
+  queued_ids t' = queued_ids t -> (forall id, cancelled_in id t' = cancelled_in id t) ->
   QInv q t -> QInv q t'.
 Proof.
-  intros _ Hw Hp Hc Ht (H1 & H2 & H3). unfold QInv. rewrite Hp, Hc. repeat split; auto.
-  eapply Forall_impl; [|exact H2]. intros p [Ha Hb]. unfold fut_ok. rewrite Ht, Hw. auto.
+  intros _ Hw Hp Hc Ht Hq Hcn (H1 & H2 & H3 & H4 & H5). unfold QInv, live. rewrite Hp, Hc, Hq.
+  split; auto. split.
+  - rewrite H2. unfold live. apply filter_ext. intros i. rewrite Hcn. reflexivity.
+  - split; [|split; auto].
+    + eapply Forall_impl; [|exact H3]. intros p [Ha Hb]. unfold fut_ok. rewrite Ht, Hw. auto.
+    + intros i Hi. rewrite Hcn in Hi. auto.
 Qed.
 
 Lemma Core_neutral e cl b i dn q n m t :
   neutral e = true -> Core cl b i dn q n m t -> Core cl b i dn q n m (e :: t).
 Proof.
-  intros Hn H. destruct (neutral_facts e t Hn) as (Hs & Hw & Hp & Hc & Ht).
+  intros Hn H. destruct (neutral_facts e t Hn) as (Hs & Hw & Hp & Hc & Ht & Hq & Hcc).
   unfold Core in *. destruct cl.
   - rewrite Hp. exact H.
   - rewrite Hs, Hw, Hc. destruct H as (A & B & C & D & E & F & G). core_split; auto.
@@ -120,12 +132,19 @@ Lemma Inv_set_listening b s : Inv s -> Inv (set_listening b s).
 Proof. intros H; exact H. Qed.
 
 (* ---------- close ---------- *)
-Lemma fail_all_spec : forall q t,
-  goodb t = true -> map snd q = pending_ids t -> inc (map snd q) (count_writes t) ->
-  let t' := rev (map (fun p : nat * nat => EFail (snd p)) q) ++ t in
+Lemma inc_filter f l hi : inc l hi -> inc (filter f l) hi.
+Proof.
+  induction l as [|x l IH]; simpl; auto. intros (H1 & H2 & H3).
+  destruct (f x); simpl; auto. repeat split; auto.
+  clear - H2. induction H2; simpl; auto. destruct (f x0); auto.
+Qed.
+
+Lemma fail_all_spec : forall (l : list nat) t,
+  goodb t = true -> l = pending_ids t -> inc l (count_writes t) ->
+  let t' := rev (map EFail l) ++ t in
   goodb t' = true /\ pending_ids t' = [] /\ connecting_tr t' = connecting_tr t.
 Proof.
-  induction q as [|[idx id] q IH]; intros t Hg Hp Hi; simpl in *.
+  induction l as [|id l IH]; intros t Hg Hp Hi; simpl in *.
   - repeat split; auto.
   - destruct Hi as (H1 & H2 & H3). rewrite <- app_assoc. simpl.
     destruct (IH (EFail id :: t)) as (A & B & C).
@@ -140,8 +159,11 @@ Lemma Inv_close s : Inv s -> Inv (close_stream s) /\ closed (close_stream s) = t
 Proof.
   intros (Hd & Hg & Hcn & Hc). unfold close_stream. destruct (closed s) eqn:E.
   - split; auto. unfold Inv. rewrite E. auto.
-  - simpl. unfold Core in Hc. destruct Hc as (_ & _ & _ & _ & (Hq1 & Hq2 & Hq3) & _ & _).
-    destruct (fail_all_spec (wfut s) (tr s) Hg Hq1 Hq3) as (Ha & Hb & Hcc).
+  - simpl. unfold Core in Hc. destruct Hc as (_ & _ & _ & _ & (Hq1 & Hq2 & Hq3 & Hq4 & Hq5) & _ & _).
+    fold (live (tr s) (map snd (wfut s))).
+    destruct (fail_all_spec (live (tr s) (map snd (wfut s))) (tr s) Hg) as (Ha & Hb & Hcc).
+    { rewrite Hq2, Hq1. reflexivity. }
+    { apply inc_filter. exact Hq4. }
     split; auto. unfold Inv; simpl.
     destruct (connecting s) eqn:Ecn; simpl.
     + rewrite Hcc, <- Hcn, Ha. repeat split; auto.
@@ -157,25 +179,37 @@ Lemma resolve_loop_spec : forall q t q' t',
   count_writes t' = count_writes t /\ connecting_tr t' = connecting_tr t.
 Proof.
   induction q as [|[idx id] q IH]; intros t q' t' Hg HQ Hpre Hct Hr; simpl in Hr.
-  - inversion Hr; subst. repeat split; auto; apply HQ.
+  - inversion Hr; subst. repeat (split; auto).
   - destruct (length (sent_of t) <? idx) eqn:E.
-    + inversion Hr; subst. repeat split; auto; apply HQ.
-    + apply Nat.ltb_ge in E. destruct HQ as (Hp & Hf & Hi). simpl in Hp, Hi.
+    + inversion Hr; subst. repeat (split; auto).
+    + apply Nat.ltb_ge in E. destruct HQ as (Hq & Hp & Hf & Hi & Hcw). simpl in Hq, Hi.
       destruct Hi as (Hi1 & Hi2 & Hi3).
       inversion Hf as [|? ? [Hwt Hle] Hf']; subst. simpl in Hwt, Hle.
-      assert (Hok : event_ok (EResolve id) t = true).
-      { simpl. rewrite Hwt, <- Hp, Hct. rewrite Nat.eqb_refl, !andb_true_r.
-        destruct Hpre as [rest Hpre]. rewrite <- Hpre.
-        rewrite firstn_app_le by lia. apply is_prefixb_iff.
-        exists (skipn idx (sent_of t)). symmetry. apply firstn_skipn. }
-      apply (IH (EResolve id :: t)) in Hr.
-      * destruct Hr as (A & B & C & D & F & G). simpl in C, D, F, G. repeat (split; auto).
-      * change (goodb (EResolve id :: t)) with (event_ok (EResolve id) t && goodb t).
-        rewrite Hok, Hg. reflexivity.
-      * unfold QInv. simpl. rewrite <- Hp. simpl. rewrite Nat.eqb_refl. simpl.
-        rewrite filter_above by auto. repeat split; auto.
-      * simpl. exact Hpre.
-      * simpl. exact Hct.
+      rewrite <- Hq in Hp. unfold live in Hp. simpl in Hp.
+      assert (Hfl : Forall (fun y => id < y) (filter (fun i => negb (cancelled_in i t)) (map snd q))).
+      { clear - Hi2. induction Hi2; simpl; auto. destruct (negb (cancelled_in x t)); auto. }
+      destruct (cancelled_in id t) eqn:Ec; simpl in Hp.
+      * apply (IH (ESkip id :: t)) in Hr.
+        -- destruct Hr as (A & B & C & D & F & G). simpl in C, D, F, G. repeat (split; auto).
+        -- rewrite goodb_cons. simpl. rewrite Ec, Hg. reflexivity.
+        -- unfold QInv, live. simpl. rewrite <- Hq. simpl. rewrite Nat.eqb_refl. simpl.
+           rewrite filter_above by auto. repeat (split; auto).
+        -- exact Hpre.
+        -- exact Hct.
+      * assert (Hok : event_ok (EResolve id) t = true).
+        { simpl. rewrite Hwt, Hp, Hct. rewrite Nat.eqb_refl, !andb_true_r.
+          destruct Hpre as [rest Hpre]. rewrite <- Hpre.
+          rewrite firstn_app_le by lia. apply is_prefixb_iff.
+          exists (skipn idx (sent_of t)). symmetry. apply firstn_skipn. }
+        apply (IH (EResolve id :: t)) in Hr.
+        -- destruct Hr as (A & B & C & D & F & G). simpl in C, D, F, G. repeat (split; auto).
+        -- rewrite goodb_cons, Hok, Hg. reflexivity.
+        -- unfold QInv, live. simpl. rewrite <- Hq. simpl. rewrite Nat.eqb_refl. simpl.
+           rewrite filter_above by auto. split; auto. split.
+           { rewrite Hp. simpl. rewrite Nat.eqb_refl. simpl. apply filter_above. exact Hfl. }
+           repeat (split; auto).
+        -- exact Hpre.
+        -- exact Hct.
 Qed.
 
 Lemma Inv_resolve s :
@@ -216,7 +250,7 @@ Proof.
       exists (skipn n chunk ++ rest). rewrite <- !app_assoc. f_equal.
       rewrite app_assoc, firstn_skipn. reflexivity. }
   assert (HQ : QInv (wfut s) (ESend (length chunk) (firstn n chunk) :: tr s)).
-  { destruct E as (E1 & E2 & E3). unfold QInv; simpl. repeat split; auto. }
+  { destruct E as (E1 & E2 & E3 & E4 & E5). unfold QInv, live; simpl. repeat (split; auto). }
   assert (Hsize : length chunk <= bsize (wb s)).
   { pose proof A as A'. unfold wf in A'. destruct A' as (_ & _ & A3). rewrite A3, Hrest, app_length. lia. }
   split.
@@ -302,10 +336,10 @@ Qed.
 Definition hd_refusal (t : list event) : bool :=
   match t with ERefuse :: _ => true | EClosedW :: _ => true | _ => false end.
 
-Lemma nr_fail_all (q : list (nat * nat)) t :
-  hd_refusal t = false -> hd_refusal (rev (map (fun p : nat * nat => EFail (snd p)) q) ++ t) = false.
+Lemma nr_fail_all (l : list nat) t :
+  hd_refusal t = false -> hd_refusal (rev (map EFail l) ++ t) = false.
 Proof.
-  revert t; induction q as [|[idx id] q IH]; intros t H; simpl; auto.
+  revert t; induction l as [|id l IH]; intros t H; simpl; auto.
   rewrite <- app_assoc. apply IH. reflexivity.
 Qed.
 
@@ -319,7 +353,7 @@ Lemma nr_resolve_loop : forall q dn t,
   hd_refusal t = false -> hd_refusal (snd (resolve_loop q dn t)) = false.
 Proof.
   induction q as [|[idx id] q IH]; intros dn t H; simpl; auto.
-  destruct (dn <? idx); simpl; auto.
+  destruct (dn <? idx); simpl; auto. apply IH. destruct (cancelled_in id t); reflexivity.
 Qed.
 
 Lemma nr_resolve s : hd_refusal (tr s) = false -> hd_refusal (tr (resolve s)) = false.
@@ -428,7 +462,7 @@ Proof.
     + set (s1 := mkst _ _ _ _ _ _ _ _ _ _ _ _ _ _).
       assert (HI1 : Inv s1).
       { destruct HI as (Hd & Hg & Hcn & Hc). rewrite Ho in Hc. unfold Core in Hc.
-        destruct Hc as (A & B & C & D & (E1 & E2 & E3) & F & G).
+        destruct Hc as (A & B & C & D & (E1 & Ep & E2 & E3 & E5) & F & G).
         unfold Inv, s1; simpl. split; auto. split; [|split; [exact Hcn|]].
         - rewrite F, Nat.eqb_refl, Hg. reflexivity.
         - unfold Core. simpl.
@@ -443,7 +477,11 @@ Proof.
           core_split; auto.
           + rewrite W2, app_assoc, B. reflexivity.
           + rewrite app_length. lia.
-          + unfold QInv. simpl. rewrite map_app. simpl. rewrite E1, F. split; auto. split.
+          + assert (Hnc : cancelled_in (count_writes (tr s)) (tr s) = false).
+            { destruct (cancelled_in (count_writes (tr s)) (tr s)) eqn:X; auto. apply E5 in X. lia. }
+            unfold QInv. simpl. rewrite map_app. simpl. rewrite E1, F. split; auto. split.
+            { unfold live. simpl. rewrite filter_app. simpl. rewrite Hnc. simpl. rewrite Ep. reflexivity. }
+            split; [|split].
             * apply Forall_app; split.
               -- apply Forall_forall. intros [idx id] Hin.
                  assert (Hlt : id < count_writes (tr s)).
@@ -459,7 +497,8 @@ Proof.
                  split.
                  ++ f_equal. rewrite C, <- app_length. symmetry. apply firstn_all.
                  ++ rewrite app_length. lia.
-            * rewrite <- E1. apply inc_snoc. rewrite <- F. rewrite F. exact E3.
+            * rewrite <- E1. apply inc_snoc. exact E3.
+            * intros i Hi. apply E5 in Hi. lia.
           + rewrite W3. unfold is_full in Hfull. destruct (maxb s) as [mx|]; auto.
             destruct (0 <? length d) eqn:E; simpl in Hfull.
             * apply Nat.ltb_ge in Hfull. lia.
@@ -506,10 +545,39 @@ Proof.
     destruct (dead _ || closed _); split; auto.
 Qed.
 
+Lemma live_cancel t id l :
+  filter (fun j => negb (j =? id)) (live t l) = live (ECancel id :: t) l.
+Proof.
+  unfold live. induction l as [|a l IH]; simpl; auto.
+  rewrite (Nat.eqb_sym id a).
+  destruct (cancelled_in a t) eqn:E1; destruct (a =? id) eqn:E2; simpl; rewrite ?E2; simpl;
+    rewrite IH; reflexivity.
+Qed.
+
+Lemma Inv_do_cancel id s :
+  Inv s -> Inv (do_cancel id s) /\ hd_refusal (tr (do_cancel id s)) = false.
+Proof.
+  intros HI. unfold do_cancel. destruct (existsb (Nat.eqb id) (pending_ids (tr s))) eqn:Ex.
+  - split; [|reflexivity]. destruct HI as (Hd & Hg & Hcn & Hc).
+    unfold Inv, emit; simpl. split; auto. split; [rewrite Ex, Hg; reflexivity|]. split; auto.
+    unfold Core in *. destruct (closed s).
+    + destruct Hc as [Hq Hp]. rewrite Hp in Ex. discriminate.
+    + destruct Hc as (A & B & C & D & (E1 & Ep & E2 & E3 & E5) & F & G).
+      core_split; auto. unfold QInv. simpl. split; auto. split.
+      { rewrite Ep. apply live_cancel. }
+      split; auto. split; auto.
+      intros i Hi. apply orb_true_iff in Hi as [Hi|Hi]; [|apply E5; exact Hi].
+      apply Nat.eqb_eq in Hi. subst i.
+      apply existsb_exists in Ex as (x & Hin & Hx). apply Nat.eqb_eq in Hx. subst x.
+      rewrite Ep in Hin. unfold live in Hin. apply filter_In in Hin as [Hin _].
+      rewrite <- E1 in Hin. pose proof (inc_lt _ _ E3) as L. rewrite Forall_forall in L. auto.
+  - split; [|reflexivity]. apply Inv_emit_neutral; auto.
+Qed.
+
 Lemma Inv_do_op o s : Inv s /\ Q s -> Inv (do_op o s) /\ Q (do_op o s).
 Proof.
   intros [HI HQ]. unfold do_op. pose proof HI as (Hd & _ & _). rewrite Hd.
-  destruct o as [d| |].
+  destruct o as [d| | |id].
   - destruct (Inv_do_write d s HI HQ) as [H1 H2].
     pose proof H1 as (Hd' & _ & _). rewrite Hd'. apply finish_op; auto.
   - destruct (Inv_do_ready s HI) as [H1 H2].
@@ -518,6 +586,8 @@ Proof.
     { apply Inv_close. apply Inv_emit_neutral; auto. }
     pose proof H1 as (Hd' & _ & _). rewrite Hd'. apply finish_op; auto.
     left. apply nr_close. reflexivity.
+  - destruct (Inv_do_cancel id s HI) as [H1 H2].
+    pose proof H1 as (Hd' & _ & _). rewrite Hd'. apply finish_op; auto.
 Qed.
 
 Lemma Inv_init cn t m sc : Inv (init_with cn t m sc) /\ Q (init_with cn t m sc).
@@ -525,7 +595,7 @@ Proof.
   destruct cn as [ok|]; (split; [|reflexivity]); unfold Inv, init_with, init, init_connecting; simpl;
     (split; auto; split; auto; split; auto);
     (unfold Core; core_split; auto;
-     [apply wf_empty|unfold QInv; simpl; auto|destruct m; simpl; auto; lia]).
+     [apply wf_empty|unfold QInv, live; simpl; repeat (split; auto); intros; discriminate|destruct m; simpl; auto; lia]).
 Qed.
 
 Lemma Inv_run_ops : forall ops s, Inv s /\ Q s -> Inv (run_ops ops s) /\ Q (run_ops ops s).
